@@ -363,6 +363,8 @@ func runC08(c *Ctx) {
 			return strings.HasPrefix(id, "pkg/storage.") || id == "io/ioutil.ReadAll" || id == "gopkg.in/yaml.v2.Unmarshal" || id == "pkg/core.RepoExists"
 		}, nil)
 	}
+	// a live label is never silently absent from a listing: only a descriptor that does not exist is skipped
+	checkSilentSkipOnlyNotExists(c, c.P.BodyOf(c.P.Func("pkg/core.getLabelAsync")), "listing.skip-only-not-exists", false)
 }
 
 func types_ExprString(e ast.Expr) string { return exprString(e) }
